@@ -11,7 +11,9 @@ const Enabled = false
 
 var CapturePath string
 
-func Init() error { return errors.New("this binary was built without -race: the data-race oracle is unavailable") }
+func Init() error {
+	return errors.New("this binary was built without -race: the data-race oracle is unavailable")
+}
 
 func Stderr() *os.File { return os.Stderr }
 func Errors() int      { return 0 }
